@@ -56,6 +56,7 @@ fn main() {
     }
     match args[0].as_str() {
         "count-spaces" => count_spaces(),
+        "form-hunt" => form_hunt(args.get(1).map(|s| s.as_str()).unwrap_or("w")),
         "show-w" => show_w(args[1].parse().unwrap_or(3), &args[2]),
         "canon-info" => canon_info(&std::fs::read_to_string(&args[1]).unwrap_or_default(), args[2].as_bytes()),
         "find-level-probe" => {
@@ -441,4 +442,89 @@ pub fn canon_info(code: &str, script: &[u8]) {
 pub fn show_w(k: usize, forms: &str) {
     let f: Vec<usize> = forms.split(',').filter_map(|x| x.parse().ok()).collect();
     println!("{}", String::from_utf8(spaces::w_program(k, &f)).unwrap());
+}
+
+
+/// Development aid: which baseline-JIT instruction forms does the bytecode generator emit for the
+/// programs of a (large) space? Translation only, 16 forked shards; prints the first witness per form.
+#[allow(dead_code)]
+pub fn form_hunt(which: &str) {
+    use hshim::exec::Width;
+    use std::collections::BTreeMap;
+    use std::io::Read;
+    const SHARDS: u64 = 16;
+    let mut pipes = Vec::new();
+    for shard in 0..SHARDS {
+        let mut fds = [0i32; 2];
+        unsafe { libc::pipe(fds.as_mut_ptr()) };
+        let pid = unsafe { libc::fork() };
+        if pid == 0 {
+            unsafe { libc::close(fds[0]) };
+            let mut found: BTreeMap<String, (u64, String)> = BTreeMap::new();
+            let mut f = |idx: u64, c: &[u8]| {
+                if idx % SHARDS != shard {
+                    return;
+                }
+                let t = std::str::from_utf8(c).unwrap();
+                for w in [Width::W8, Width::W64] {
+                    for l in 1..=3u32 {
+                        let r = std::panic::catch_unwind(|| hshim::exec::translate(w, l, t, 11, false, false));
+                        if let Ok(Ok(bc)) = r {
+                            for i in &bc.insts {
+                                if let Some(form) = forms::jit_form(i, w) {
+                                    let key = format!("{form} w{}", w.bits());
+                                    let e = found.entry(key).or_insert((0, format!("-O{l} {t}")));
+                                    e.0 += 1;
+                                }
+                            }
+                        }
+                    }
+                }
+            };
+            match which {
+                "w" => { spaces::space_w(true, &mut f); }
+                "w3" => { spaces::space_w_sized(&[12, 13], 3, &mut f); }
+                "s3" => { spaces::space_s(3, 0, &mut f); }
+                "s22" => { spaces::space_s(2, 2, &mut f); }
+                "b6" => { spaces::space_b(6, &mut f); }
+                "a8" => { spaces::space_a(8, &mut f); }
+                _ => {}
+            }
+            let mut out = String::new();
+            for (k, (n, wit)) in &found {
+                out.push_str(&format!("{k}\t{n}\t{wit}\n"));
+            }
+            unsafe {
+                libc::write(fds[1], out.as_ptr() as *const libc::c_void, out.len());
+                libc::_exit(0);
+            }
+        }
+        unsafe { libc::close(fds[1]) };
+        pipes.push((pid, fds[0]));
+    }
+    let mut all: BTreeMap<String, (u64, String)> = BTreeMap::new();
+    for (pid, fd) in pipes {
+        use std::os::unix::io::FromRawFd;
+        let mut file = unsafe { std::fs::File::from_raw_fd(fd) };
+        let mut s = String::new();
+        let _ = file.read_to_string(&mut s);
+        let mut st = 0;
+        unsafe { libc::waitpid(pid, &mut st, 0) };
+        for line in s.lines() {
+            let mut it = line.splitn(3, '\t');
+            let (k, n, w) = (it.next().unwrap_or(""), it.next().unwrap_or("0"), it.next().unwrap_or(""));
+            let e = all.entry(k.to_string()).or_insert((0, w.to_string()));
+            e.0 += n.parse::<u64>().unwrap_or(0);
+            if w.len() < e.1.len() {
+                e.1 = w.to_string();
+            }
+        }
+    }
+    let interesting = forms::interesting_forms();
+    for (k, (n, w)) in &all {
+        let base = k.rsplit_once(" w").map(|x| x.0).unwrap_or(k);
+        let mark = if interesting.iter().any(|f| f == base) { "*" } else { " " };
+        let ws: String = w.chars().take(300).collect();
+        println!("{mark} {k}\t{n}\t{ws}");
+    }
 }
